@@ -64,13 +64,14 @@ Proof.
   { intro Z. unfold lenS in *. rewrite Z in *. simpl in *. unfold last_index in Hli. rewrite Z in Hli. simpl in Hli.
     unfold sidxS in *. destruct (p_snap (n_p s)); lia. }
   assert (P1 : preS b s1).
-  { unfold preS, lenS, sidxS. rewrite L1, S1, V1. split; [exact W|]. split.
-    - rewrite <- (last_index_wfb (n_p s1) b); [reflexivity | rewrite L1; exact W | rewrite L1; exact Hne].
-    - unfold lenS in Hle. repeat split; auto. }
+  { unfold preS. split; [rewrite L1; exact W|]. split.
+    - apply last_index_wfb; rewrite L1; assumption.
+    - unfold lenS, sidxS in *. rewrite L1, S1, V1. repeat split; auto. }
   assert (Keep : exists b', b <= b' /\ b' <= n_commit s /\ preS b' s1 /\
                    p_log (n_p s1) = skipn (N.to_nat (b' - b)) (p_log (n_p s)) /\
                    n_commit s1 = n_commit s /\ n_commits s1 = n_commits s /\ n_role s1 = n_role s /\ p_term (n_p s1) = p_term (n_p s)).
-  { exists b. replace (N.to_nat (b - b)) with 0%nat by lia. simpl. repeat split; auto; lia. }
+  { exists b. replace (N.to_nat (b - b)) with 0%nat by lia. simpl skipn.
+    split; [lia|]. split; [exact Hb|]. split; [exact P1|]. split; [exact L1|]. repeat split; assumption. }
   unfold trim_log in Hrun. rewrite L1 in Hrun.
   rewrite (log_first_wf _ _ W Hne) in Hrun.
   assert (Ell : log_last (p_log (n_p s)) = Some (b + lenS (n_p s))).
